@@ -13,9 +13,11 @@ Local Open Scope Z_scope.
 
 (* Whatever bytes arrive, in whatever order with all other events: no read outside the received
    buffer, no write outside the request buffer, no index outside the server table (Fault), and the
-   timer loop of one `Adv` always terminates within its fuel (Fuel). *)
+   timer loop of one `Adv` always terminates within its fuel (Fuel), and the receive callback returns: the
+   name-skip loop ends within len iterations because its index (width read from its declaration) cannot wrap
+   for len < 65536 (Hang). *)
 Theorem C20_reply_safe : forall evs, Forall ev_ok evs ->
-  ~ In Fault (run evs) /\ ~ In Fuel (run evs).
+  ~ In Fault (run evs) /\ ~ In Fuel (run evs) /\ ~ In Hang (run evs).
 Proof. exact C20_reply_safe_thm. Qed.
 Print Assumptions C20_reply_safe.
 
